@@ -362,6 +362,9 @@ def sky_case(draw):
         flags.append([draw(st.integers(0, nrow - 1)), draw(st.sampled_from([0, 1, npix - 1, npix - 2, npix // 2])) if draw(st.booleans()) else draw(st.integers(0, npix - 1)),
                       draw(st.sampled_from(['sky', 'red', 'both']))])
     other = [[draw(st.integers(0, nrow - 1)), draw(st.integers(0, npix - 1)), draw(st.integers(0, top))] for _ in range(draw(st.integers(0, 8)))]
+    if draw(st.booleans()):
+        # an unrelated flag on the highest bit of the mask type (the sign bit of a signed mask: the pixel value is negative)
+        other.append([draw(st.integers(0, nrow - 1)), draw(st.integers(0, npix - 1)), 8 * int(dt[1]) - 1])
     return dict(dtype=dt, b1=b1, b2=b2, nrow=nrow, npix=npix, flags=flags, other=other, ngrow=draw(st.sampled_from([2, 0, 1, 3, 4])) if not big else draw(st.sampled_from([128, 127, 150, 64])),
                 with_ormask=draw(st.sampled_from([True, True, True, False])),
                 and_flags=[[draw(st.integers(0, nrow - 1)), draw(st.integers(0, npix - 1))] for _ in range(draw(st.sampled_from([0, 0, 1, 3])))])
